@@ -37,10 +37,10 @@ def realise(feat: Dict[str, bool], root: Path) -> List[str]:
     if feat["move"]:
         init += "from pk._impl import Moved, mf\n__all__ = ['Moved', 'mf']\n"
         (pk / "_impl.py").write_text(
-            '"""Implementation module."""\n'
+            '"""Implementation module, see L{pk.mf}."""\n'
             'class Moved:\n    """Moved class."""\n    def mm(self, n=1):\n        """Method mm, see L{helper}."""\n'
-            'def helper():\n    """Function helper."""\n'
-            'def mf(x=1):\n    """Function mf, see L{helper}."""\n')
+            'def helper():\n    """Function helper, see L{pk.mf}."""\n'
+            'def mf(x: int = 1) -> int:\n    """Function mf, see L{helper}."""\n')
     (pk / "__init__.py").write_text(init)
     mod = ['"""Module mod, see L{Hid}."""',
            'from typing import Generic, TypeVar',
@@ -85,7 +85,9 @@ def realise(feat: Dict[str, bool], root: Path) -> List[str]:
                 '    def b(self):',
                 '        pass']
     mod += ['def func(x: Hid) -> Base:',
-            '    """Function func, see L{Sub}%s."""' % (" and L{pk._impl.Moved}" if feat["move"] else "")]
+            '    """Function func, see L{Sub}%s%s."""' % (" and L{pk._impl.Moved}" if feat["move"] else "",
+                                                          # a is a member of the superseded first Dup only: not a link target
+                                                          "; C{Dup} had L{Dup.a}" if feat["dup"] else "")]
     (pk / "mod.py").write_text("\n".join(mod) + "\n")
     # import cycle: cyca is analysed first and imports cycb before CBase exists
     (pk / "cyca.py").write_text(
@@ -137,7 +139,18 @@ EXTRA_PROJECTS: Dict[str, Dict[str, str]] = {
 EXTRA_PROJECTS["main-module"] = {"pkg/__init__.py": '"""Package."""\n',
                                  "pkg/__main__.py": '"""Entry point."""\ndef main():\n    """Run."""\n',
                                  "pkg/mod.py": '"""Module."""\ndef f():\n    """Function f."""\n'}
-EXTRA_SRC = {"replaced-root": ["a/pk", "b/pk"], "main-module": ["pkg"], "redefined-base": ["m.py"], "non-ascii": ["m.py"], "redefined-members": ["pkg"], "sectioned-docstring": ["pkg"]}
+# a package re-exports a module of a sub-package under a name one of its own modules already has: pkg.util is superseded
+EXTRA_PROJECTS["superseded-module"] = {
+    "pkg/__init__.py": '"""Package."""\nfrom pkg.sub import util\n__all__ = ["util"]\n',
+    "pkg/util.py": '"""Old utilities."""\nclass Helper:\n    """Helper."""\n    def go(self):\n        """Go."""\ndef tool():\n    """Tool."""\n',
+    "pkg/sub/__init__.py": '"""Sub-package."""\n',
+    "pkg/sub/util.py": '"""New utilities."""\nclass Better:\n    """Better."""\n'}
+# a class with a nested class, defined in a module that a rule hides and re-exported by the package
+EXTRA_PROJECTS["hidden-origin-nested"] = {
+    "pkg/__init__.py": '"""Package."""\nfrom pkg._hid import Outer\n__all__ = ["Outer"]\n',
+    "pkg/_hid.py": '"""Hidden implementation module."""\nclass Outer:\n    """Outer class."""\n    class Inner:\n        """Nested class."""\n'
+                   '        def im(self):\n            """Method im."""\n    def om(self):\n        """Method om."""\n'}
+EXTRA_SRC = {"hidden-origin-nested": ["pkg"], "superseded-module": ["pkg"], "replaced-root": ["a/pk", "b/pk"], "main-module": ["pkg"], "redefined-base": ["m.py"], "non-ascii": ["m.py"], "redefined-members": ["pkg"], "sectioned-docstring": ["pkg"]}
 
 # the project of spec/PrivacyHistory.tla: the class K = Moved with methods F = mm, G = other, re-exported by api
 HISTORY_PROJECT = {
@@ -156,7 +169,7 @@ ALL_PRODS = ["namespace", "childTable", "baseTable", "baseName", "classSignature
              "overriddenIn", "headerLink", "inhierarchy", "docstring", "memberDoc", "summaryDoc", "annotation",
              "sidebarTitle", "sidebarItem", "nav", "moduleIndex", "classIndex", "nameIndex", "letterlinks",
              "undocced", "indexRoots", "indexStatic"]
-ENTRY_KINDS = ["table", "detail", "sidebar", "moduleIndex", "classIndex", "nameIndex", "undocced", "indexRoots", "overridesNote"]
+ENTRY_KINDS = ["table", "detail", "sidebar", "moduleIndex", "classIndex", "nameIndex", "undocced", "indexRoots", "overridesNote", "sidebarTitle"]
 # real packages: targets of docstring / annotation references are not part of the projected object model
 STRUCTURAL_PRODS = [p for p in ALL_PRODS if p not in ("classSignature", "docstring", "memberDoc", "summaryDoc", "annotation")]
 THEMES = ["base", "classic", "readthedocs"]
@@ -261,13 +274,20 @@ def to_case(res: Dict[str, Any]) -> Dict[str, Any]:
     objs = {}
     for o in proj["objs"]:
         objs[o["id"]] = {k: o[k] for k in ("id", "qid", "name", "cls", "parent", "priv", "ownpage", "file", "frag",
-                                           "incontents", "inall", "bases", "mro", "subclasses", "doc", "docsrc", "initial",
+                                           "incontents", "inall", "module", "bases", "mro", "subclasses", "doc", "docsrc", "initial",
                                            "dupname", "dupfull")}
     pages = [f for f, raw in zip(site["files"], site["rawfiles"]) if raw.endswith(".html")]
     links = sorted({(l["page"], l["file"], l["frag"], l["prod"], l["member"]) for l in site["links"]})
     byid = {o["id"]: o for o in proj["objs"]}
     ents = []
     for e in site["entries"]:
+        if e.get("ref", "").startswith("title:"):      # an unlinked sidebar section title "<Kind> <short name>"
+            _, kind, label = e["ref"].split(":", 2)
+            group = ("Module", "Package") if kind in ("Module", "Package") else ("Class",)
+            cands = [o for o in proj["objs"] if o["name"] == label and o["cls"] in group and not o["visible"]]
+            if len(cands) != 1:
+                continue
+            e = dict(e, ref=cands[0]["id"])
         if e.get("ref"):                     # an item without link: the address of the object whose name it displays
             if e["ref"] not in byid:
                 continue
@@ -299,6 +319,7 @@ def to_case(res: Dict[str, Any]) -> Dict[str, Any]:
 # --------------------------------------------------------- the verdict: Python twin of Site.tla section 4 + 5
 MARKED_KINDS = ("table", "detail", "sidebar", "moduleIndex", "nameIndex")
 ALLOBJECTS_PRODS = ("nameIndex", "undocced", "classIndex", "searchDoc")
+HIERARCHY_PRODS = ("classSignature", "baseName", "baseTable", "sidebarItem", "subclasses", "overrides", "overridesNote", "overriddenIn")
 TAGLINK_PRODS = ("classSignature", "annotation", "docstring", "memberDoc", "summaryDoc", "overrides", "baseName", "extras")
 
 
@@ -384,6 +405,8 @@ class View:
             return "percent-encoded-page-filename"
         if prod == "overridesNote" and self.targets_hidden(f, g):
             return "overrides-note-names-hidden-member"
+        if prod == "sidebarTitle" and self.targets_hidden(f, g):
+            return "sidebar-names-hidden-origin-module"
         if prod == "tocBackref" and f == page and g != "":
             return "toc-backref-stale-id"
         if prod in ALLOBJECTS_PRODS and (f, g) in self.superseded_urls:
@@ -394,7 +417,7 @@ class View:
             return "link-to-hidden-object"
         if prod in ("moduleIndex", "indexRoots") and g == "" and f in self.hidden_root_files:
             return "hidden-root-listed"
-        if prod not in ALLOBJECTS_PRODS and (f, g) in self.superseded_urls:
+        if prod in HIERARCHY_PRODS and (f, g) in self.superseded_urls:
             return "superseded-duplicate-not-rendered"
         if prod == "inhierarchy" and f == "classIndex" and g in self.o and any(b in self.superseded for b in self.o[g]["mro"]):
             return "superseded-duplicate-not-rendered"
@@ -488,6 +511,8 @@ def _facts_class(w: Dict[str, Any]) -> str:
         return "percent-encoded-page-filename"
     if prod == "overridesNote" and f.get("target_hidden"):
         return "overrides-note-names-hidden-member"
+    if prod == "sidebarTitle" and f.get("target_hidden"):
+        return "sidebar-names-hidden-origin-module"
     if prod == "tocBackref" and inst.get("file") == inst.get("page") and inst.get("frag"):
         return "toc-backref-stale-id"
     if prod in ALLOBJECTS_PRODS and f.get("target_superseded"):
@@ -498,7 +523,7 @@ def _facts_class(w: Dict[str, Any]) -> str:
         return "link-to-hidden-object"
     if prod in ("moduleIndex", "indexRoots") and f.get("target_hidden_root") and not inst.get("frag"):
         return "hidden-root-listed"
-    if prod not in ALLOBJECTS_PRODS and f.get("target_superseded"):
+    if prod in HIERARCHY_PRODS and f.get("target_superseded"):
         return "superseded-duplicate-not-rendered"
     if prod == "inhierarchy" and inst.get("file") == "classIndex" and f.get("class_has_superseded_base"):
         return "superseded-duplicate-not-rendered"
@@ -541,6 +566,11 @@ def kf_link_to_hidden(w: Dict[str, Any]) -> bool:               # C12
 def kf_overrides_note_hidden(w: Dict[str, Any]) -> bool:        # C12
     return w.get("invariant") == "HiddenNoTrace" and w.get("instance", {}).get("trace") == "entry" \
         and _facts_class(w) == "overrides-note-names-hidden-member"
+
+
+def kf_sidebar_names_hidden_origin_module(w: Dict[str, Any]) -> bool:    # C12
+    return w.get("invariant") == "HiddenNoTrace" and w.get("instance", {}).get("trace") == "entry" \
+        and _facts_class(w) == "sidebar-names-hidden-origin-module"
 
 
 def kf_main_module_ignores_rules(w: Dict[str, Any]) -> bool:    # C12
@@ -616,7 +646,8 @@ MODEL_SWITCHES = {"link-to-hidden-object": "link-to-hidden-object", "dead-link-t
                   "hidden-root-listed": "hidden-root-listed", "dead-link-hidden-root": "hidden-root-listed",
                   "inherited-docstring-samepage-link": "inherited-docstring-samepage-link",
                   "superseded-duplicate-listed": "superseded-duplicate-listed",
-                  "percent-encoded-page-filename": "percent-encoded-page-filename"}
+                  "percent-encoded-page-filename": "percent-encoded-page-filename",
+                  "sidebar-names-hidden-origin-module": "sidebar-names-hidden-origin-module"}
 
 
 def fixed_set() -> str:
@@ -733,6 +764,7 @@ def run_property(ctx: Ctx, prop: str) -> int:
         ctx.register_matcher("hidden-root-listed", kf_hidden_root_listed)
         ctx.register_matcher("overrides-note-names-hidden-member", kf_overrides_note_hidden)
         ctx.register_matcher("main-module-ignores-rules", kf_main_module_ignores_rules)
+        ctx.register_matcher("sidebar-names-hidden-origin-module", kf_sidebar_names_hidden_origin_module)
 
     # ---- design level: TLC judges the predicted site of every model of the family
     k = 2 if ctx.quick else 3
@@ -818,7 +850,7 @@ def run_property(ctx: Ctx, prop: str) -> int:
             pass1.append(real_job("%s#0" % nm, srcs, [], THEMES[n % 3], 1 + n % 3, 6, ctx.scratch, len(pass1)))
     extras = []
     for n, nm in enumerate(sorted(EXTRA_PROJECTS)):
-        for vv, rules in enumerate([[], ["PRIVATE:**.f*", "HIDDEN:m.B", "HIDDEN:pkg.__main__"], ["HIDDEN:**.A", "PRIVATE:m.Th*"]][:2 if ctx.quick else 3]):
+        for vv, rules in enumerate([[], ["PRIVATE:**.f*", "HIDDEN:m.B", "HIDDEN:pkg.__main__", "HIDDEN:pkg._hid"], ["HIDDEN:**.A", "PRIVATE:m.Th*"]][:2 if ctx.quick else 3]):
             j = real_job("x:%s#%d" % (nm, vv), [], rules, THEMES[(n + vv) % 3], 1 + vv, 6, ctx.scratch, 9000 + 10 * n + vv)
             j.update({"project": nm, "root": str(ctx.scratch / ("xproj%d_%d" % (n, vv)))})
             extras.append(j)
